@@ -61,7 +61,7 @@ extern crate alloc;
 use alloc::{borrow::ToOwned, format, string::String};
 use core::{
     cmp::Ordering,
-    fmt,
+    fmt::{self, Write},
     ops::{Add, Div, Mul, Sub},
 };
 
@@ -312,7 +312,42 @@ pub trait Quantity: Copy + Sized + Mul<AmountT> {
             } else {
                 tmp = format!("{} {}", abs_amnt, self.unit());
             }
-            form.pad_integral(amnt_non_neg, "", &tmp)
+            // `Formatter::pad_integral` measures the text in bytes, but unit
+            // symbols may contain non-ASCII characters (m², °C, µs), so the
+            // padding is applied here, counting characters.
+            let sign = if !amnt_non_neg {
+                "-"
+            } else if form.sign_plus() {
+                "+"
+            } else {
+                ""
+            };
+            let n_chars = sign.len() + tmp.chars().count();
+            let n_pad = form.width().unwrap_or(0).saturating_sub(n_chars);
+            let (n_pre, n_zeroes, n_post) = if form.sign_aware_zero_pad() {
+                (0, n_pad, 0)
+            } else {
+                match form.align() {
+                    Some(fmt::Alignment::Left) => (0, 0, n_pad),
+                    Some(fmt::Alignment::Center) => {
+                        (n_pad / 2, 0, n_pad - n_pad / 2)
+                    }
+                    _ => (n_pad, 0, 0),
+                }
+            };
+            let fill = form.fill();
+            for _ in 0..n_pre {
+                form.write_char(fill)?;
+            }
+            form.write_str(sign)?;
+            for _ in 0..n_zeroes {
+                form.write_char('0')?;
+            }
+            form.write_str(&tmp)?;
+            for _ in 0..n_post {
+                form.write_char(fill)?;
+            }
+            Ok(())
         }
     }
 }
